@@ -1,6 +1,7 @@
 import PharmpyModel.Core.Sexp
 import PharmpyModel.C13.Reader
 import PharmpyModel.C13.ModelLevel
+import PharmpyModel.C13.History
 open Pharmpy Pharmpy.C13
 
 def bad : Sexp := .list [.atom "err", .atom "bad-op"]
@@ -55,8 +56,54 @@ def pair? : Sexp → Option (Str × Str)
   | .list [.atom a, .atom b] => some (a.toList, b.toList)
   | _ => none
 
+def frame? : Sexp → Option Frame
+  | .list [cols, rows] => do
+    let c ← strs? cols
+    let r ← rows.asList?.bind (·.mapM strs?)
+    some ⟨c, r⟩
+  | _ => none
+
+def mstate? : Sexp → Option MState
+  | .list [fr, .list [], .atom name] => do some ⟨← frame? fr, none, name.toList⟩
+  | .list [fr, .list [.atom p], .atom name] => do some ⟨← frame? fr, some p.toList, name.toList⟩
+  | _ => none
+
+def fs? (x : Sexp) : Option FS := do
+  let xs ← x.asList?
+  xs.mapM pair?
+
+def target? : Sexp → Option Target
+  | .atom "dir" => some .dir
+  | .list [.atom "file", .atom p] => some (.file p.toList)
+  | _ => none
+
+def hop? : Sexp → Option HOp
+  | .list [.atom "write", t, f] => do some (.write (← target? t) (← f.asBool?))
+  | .list [.atom "setdata", fr, k] => do some (.setData (← frame? fr) (← k.asBool?))
+  | .list [.atom "writemodel", .atom p, f] => do some (.writeModel p.toList (← f.asBool?))
+  | _ => none
+
+def frameS (f : Frame) : Sexp := .list [.list (f.cols.map strS), .list (f.rows.map (fun r => .list (r.map strS)))]
+
+def stateS (s : FS × MState) : Sexp :=
+  .list [.list (s.1.map (fun (p, c) => .list [strS p, strS c])),
+         .list [frameS s.2.dataset, (match s.2.path with | some p => .list [strS p] | none => .list []), strS s.2.name]]
+
 def handle (req : Sexp) : Sexp :=
   match req with
+  | .list [.atom "hstep", fs, st, op] =>
+    match fs? fs, mstate? st, hop? op with
+    | some fs, some st, some op =>
+      let failed : Bool := match op with
+        | .write t force => (match writeCsv fs st t force with | .ok _ => false | .error _ => true)
+        | .writeModel p force => (match writeModel fs st p force with | .ok _ => false | .error _ => true)
+        | .setData _ _ => false
+      .list [.atom (if failed then "FileExistsError" else "ok"), stateS (hstep (fs, st) op)]
+    | _, _, _ => bad
+  | .list [.atom "render", fr] =>
+    match frame? fr with
+    | some f => strS (renderCsv f)
+    | none => bad
   | .list [.atom "mread", .atom text, .atom ic, opts, .atom null, .atom missing, mode, filters] =>
     match ic.toList, opts.asList?.bind (·.mapM inopt?), mode.asNat?, filters.asList?.bind (·.mapM filt?) with
     | [c], some opts, some mode, some fs =>
